@@ -115,6 +115,18 @@ def relational_part(V, prop, relkind, tr, sd, workers=None, ncap=None):
         jobs.append({"id": "r%d" % i, "an": n["net"], "fluid": "water" if (seq or i % 4 == 1) else "lgas", "params": prm,
                      "opts": opts, "check": [prop + "R"], "relkind": relkind, "rseed": sd * 1000 + i,
                      "ropts": {"use_numba": True} if relkind == "numba" else None})
+    if relkind == "numba":
+        # trickle flows on dead-end pipes (between the zero-flow thresholds of the twin kernels)
+        for t, trickle in enumerate((5e-9, 3e-10, 8e-9)):
+            mini = {"J": [dict(lab=k, svc=True) for k in (1, 2, 3)],
+                    "E": [dict(tbl="pipe", lab=1, a=1, b=2, et="", svc=True, ca=True, cj=0, typ="", sec=2),
+                          dict(tbl="pipe", lab=2, a=2, b=3, et="", svc=True, ca=True, cj=0, typ="", sec=1)],
+                    "N": [dict(tbl="ext_grid", lab=1, j=1, svc=True, typ="pt"), dict(tbl="sink", lab=1, j=2, svc=True, typ=""),
+                          dict(tbl="sink", lab=2, j=3, svc=True, typ="")]}
+            jobs.append({"id": "trickle%d" % t, "an": mini, "fluid": "water",
+                         "params": {("sink", 2): {"mdot": trickle, "scaling": 1.0}, ("sink", 1): {"mdot": 0.2, "scaling": 1.0}},
+                         "opts": dict(c04.PF_OPTS, mode="sequential", max_iter_therm=60, tol_T=1e-9), "check": [prop + "R"],
+                         "relkind": "numba", "rseed": t, "ropts": {"use_numba": True}})
     cases = [c for c in core.pmap(pf.run_case_related, jobs, chunksize=12, workers=workers) if "skip" not in c]
     if relkind == "rev":
         # the known orientation dependence in hydraulics-only mode when a feeder's temperature differs from tfluid_k (F30)
